@@ -38,7 +38,6 @@ use verif_harness::{Cfg, guarded};
 const SLACK: Duration = Duration::from_secs(5);
 const DA_REPLY: &[u8] = b"\x1b[?62;4c";
 const CPR_REPLY: &[u8] = b"\x1b[5;7R";
-const SIZE_REPLY: &[u8] = b"\x1b[8;50;132t\x1b[4;1000;1320t";
 
 // ------------------------------------------------------------------------------------------------ script
 
@@ -166,6 +165,9 @@ struct Session {
     run_handler: Option<(usize, bool)>,
     /// with `run_handler`: drive through `Terminal::run_render` (renderer, error clean-up path, re-creation on Resize)
     render: bool,
+    /// with `run_handler`: the handler's k-th call PANICS; the unwinding is caught by the caller, the terminal is then
+    /// dropped as usual (every exit path includes this one in Rust: Drop runs the same code)
+    handler_panics: bool,
     /// selects the line settings installed on the pty before the terminal is opened
     termios: u64,
     /// the peer answers the size queries, so that the terminal takes its size from escape sequences
@@ -180,7 +182,7 @@ impl Session {
         json!({
             "steps": self.steps.iter().map(|s| s.token()).collect::<Vec<_>>(),
             "drop_at": self.drop_at, "run_handler": self.run_handler.map(|(k, q)| json!([k, q])),
-            "termios": self.termios.to_string(), "size_esc": self.size_esc, "render": self.render, "high_fd": self.high_fd, "label": self.label,
+            "termios": self.termios.to_string(), "size_esc": self.size_esc, "render": self.render, "handler_panics": self.handler_panics, "high_fd": self.high_fd, "label": self.label,
         })
     }
     fn from_json(v: &Value) -> Option<Session> {
@@ -191,6 +193,7 @@ impl Session {
             termios: v["termios"].as_str().and_then(|s| s.parse().ok()).unwrap_or(0),
             size_esc: v["size_esc"].as_bool().unwrap_or(false),
             render: v["render"].as_bool().unwrap_or(false),
+            handler_panics: v["handler_panics"].as_bool().unwrap_or(false),
             high_fd: v["high_fd"].as_i64().map(|n| n as i32),
             label: v["label"].as_str().unwrap_or("replay").to_string(),
         })
@@ -211,6 +214,19 @@ fn command(n: usize) -> TerminalCommand {
         4 => TerminalCommand::CursorRestore,
         5 => TerminalCommand::EraseChars(n / 7 % 9 + 1),
         _ => TerminalCommand::Raw(format!("<raw {n}>").into_bytes()),
+    }
+}
+
+/// what `command(n)` must put on the wire
+fn command_bytes(n: usize) -> Vec<u8> {
+    match n % 7 {
+        0 => format!("\x1b[{};{}H", n / 7 % 50 + 1, n % 131 + 1).into_bytes(),
+        1 => vec![(0x41 + (n / 7) % 26) as u8],
+        2 => b"\x1b[2K".to_vec(),
+        3 => b"\x1b7".to_vec(),
+        4 => b"\x1b8".to_vec(),
+        5 => format!("\x1b[{}X", n / 7 % 9 + 1).into_bytes(),
+        _ => format!("<raw {n}>").into_bytes(),
     }
 }
 
@@ -312,6 +328,27 @@ fn termios_words(fd: RawFd) -> Option<Vec<u32>> {
     }
 }
 
+/// every field of the kernel's termios as raw numbers (all 32 special characters, both speeds): what the restore
+/// check compares — no helper decides which fields matter
+fn termios_full(fd: RawFd) -> Option<Vec<u32>> {
+    unsafe {
+        let mut t: libc::termios = std::mem::zeroed();
+        if libc::tcgetattr(fd, &mut t) != 0 {
+            return None;
+        }
+        let mut w = vec![t.c_iflag as u32, t.c_oflag as u32, t.c_cflag as u32, t.c_lflag as u32, t.c_line as u32];
+        w.extend(t.c_cc.iter().map(|c| *c as u32));
+        w.push(t.c_ispeed as u32);
+        w.push(t.c_ospeed as u32);
+        Some(w)
+    }
+}
+
+fn set_winsize(master: RawFd, rows: usize, cols: usize) {
+    let ws = libc::winsize { ws_row: rows as u16, ws_col: cols as u16, ws_xpixel: 0, ws_ypixel: 0 };
+    unsafe { libc::ioctl(master, libc::TIOCSWINSZ, &ws) };
+}
+
 fn words_token(w: &[u32]) -> String {
     w.iter().map(|x| format!("{x:x}")).collect::<Vec<_>>().join(".")
 }
@@ -381,6 +418,9 @@ struct Shared {
     at_da: Mutex<Vec<(usize, Option<Vec<u32>>, Instant)>>,
     paused: AtomicBool,
     answer_size: AtomicBool,
+    /// the emulator's window: rows, columns (pixels are 20 per row, 10 per column in the escape-sequence answer)
+    rows: AtomicUsize,
+    cols: AtomicUsize,
     /// delay before the cursor-position query is answered (ms)
     reply_delay_ms: AtomicU64,
     /// typed by the emulator right behind its next device-attributes answer (same write)
@@ -454,7 +494,8 @@ fn peer(master: RawFd, keep: RawFd, shared: Arc<Shared>) {
                 done = i;
             } else if tail[i..].starts_with(b"\x1b[14t") {
                 if shared.answer_size.load(Ordering::SeqCst) {
-                    master_write(master, SIZE_REPLY);
+                    let (r, c) = (shared.rows.load(Ordering::SeqCst), shared.cols.load(Ordering::SeqCst));
+                    master_write(master, format!("\x1b[8;{r};{c}t\x1b[4;{};{}t", r * 20, c * 10).as_bytes());
                 }
                 i += 5;
                 done = i;
@@ -711,6 +752,11 @@ fn result_token(r: &Result<Option<TerminalEvent>, Error>) -> String {
     }
 }
 
+/// bytes the tty accepted according to the hook's write records
+fn accepted_sum(recs: &[Rec]) -> usize {
+    recs.iter().map(|x| if let Rec::TtyWrite { accepted, .. } = x { *accepted } else { 0 }).sum()
+}
+
 fn list(v: &[String]) -> String {
     if v.is_empty() { "-".into() } else { v.join(",") }
 }
@@ -783,6 +829,11 @@ struct Runner {
     /// what the terminal read from the tty and queued, in order (diagnostics for lost-input reports)
     input_log: Vec<String>,
     frames_dropped: bool,
+    /// window sizes the emulator has had (rows, columns)
+    sizes: Vec<(usize, usize)>,
+    /// bytes the tty accepted so far (sum over the hook's write records)
+    sent: usize,
+    injected_panic: bool,
     /// a payload too large to be replayed through the model was written: the session is judged by the oracle only
     big_output: bool,
     /// the session wants to drop the terminal while the peer does not read
@@ -811,6 +862,7 @@ impl Runner {
         self.out.polls += 1;
         // trace refinement
         let recs = verif_c17::take_trace();
+        self.sent += accepted_sum(&recs);
         for x in recs.iter() {
             match x {
                 Rec::TtyRead(b) => self.input_log.push(format!("read:{}", String::from_utf8_lossy(b).escape_default())),
@@ -847,12 +899,23 @@ impl Runner {
                 self.out.wake_events += 1;
                 self.wake_events.push(ended);
             }
-            Ok(Some(TerminalEvent::Resize(_))) => {
+            Ok(Some(TerminalEvent::Resize(size))) => {
+                // raw numbers of the public fields against the sizes the emulator has had (ioctl: no pixel size;
+                // escape-sequence answer: 20 x 10 pixels per cell)
+                let got = (size.cells.height, size.cells.width, size.pixels.height, size.pixels.width);
+                let esc = self.size_esc;
+                let px = |r: usize, c: usize| if esc { (r, c, r * 20, c * 10) } else { (r, c, 0, 0) };
+                if !self.sizes.iter().any(|(r, c)| px(*r, *c) == got) {
+                    let want: Vec<_> = self.sizes.iter().map(|(r, c)| px(*r, *c)).collect();
+                    self.fail("the size in a Resize event is none of the sizes the window has had",
+                        format!("(rows, columns, pixel height, pixel width) one of {want:?}"), format!("{got:?}"));
+                }
                 self.out.resizes += 1;
                 self.resize_events.push(ended);
             }
             Ok(Some(TerminalEvent::Key(key))) => {
-                if let (KeyName::Char(c), true) = (key.name, key.mode == KeyMod::EMPTY) {
+                // structural pattern on the public fields / constants, not the crate's comparison impls
+                if let surf_n_term::Key { name: KeyName::Char(c), mode: KeyMod::EMPTY } = *key {
                     self.keys_seen.push(c as u32 as u8);
                     self.out.keys += 1;
                     let typed = self.typed.lock().unwrap().clone();
@@ -904,6 +967,7 @@ impl Runner {
         self.in_poll.lock().unwrap().since = None;
         self.shared.reply_delay_ms.store(0, Ordering::SeqCst);
         let recs = verif_c17::take_trace();
+        self.sent += accepted_sum(&recs);
         for x in recs.iter() {
             match x {
                 Rec::TtyRead(b) => self.input_log.push(format!("read:{}", String::from_utf8_lossy(b).escape_default())),
@@ -996,8 +1060,8 @@ impl Runner {
                 self.exp.push(self.state_token(term));
             }
             Step::Exec(n) => {
-                let mut p = Vec::new();
-                TTYEncoder::new(term.capabilities().clone()).encode(&mut p, command(*n)).unwrap();
+                // the bytes the model queues are written down in the harness (xterm control sequences), not taken from the encoder
+                let p = command_bytes(*n);
                 term.execute(command(*n)).unwrap();
                 self.req.push_str(&format!(" w:{}", hex(&p)));
                 self.exp.push(self.state_token(term));
@@ -1049,6 +1113,15 @@ impl Runner {
             }
             Step::KeysSync => self.keys_sync(),
             Step::Winch => {
+                // the window really changes: a new size (rows and columns differ) before the signal
+                let (r0, c0) = (self.shared.rows.load(Ordering::SeqCst), self.shared.cols.load(Ordering::SeqCst));
+                let (r1, c1) = (if r0 >= 90 { 21 } else { r0 + 1 }, if c0 >= 250 { 71 } else { c0 + 3 });
+                self.shared.rows.store(r1, Ordering::SeqCst);
+                self.shared.cols.store(c1, Ordering::SeqCst);
+                if !self.hung_up {
+                    set_winsize(self.master, r1, c1);
+                }
+                self.sizes.push((r1, c1));
                 let at = Instant::now();
                 unsafe { libc::raise(libc::SIGWINCH) };
                 self.winch_times.lock().unwrap().push(at);
@@ -1215,14 +1288,9 @@ impl Runner {
     }
 }
 
-fn caps_token(caps: &TerminalCaps) -> String {
-    let d = match format!("{:?}", caps.depth).as_str() {
-        "TrueColor" => 't',
-        "Gray" => 'g',
-        _ => 'e',
-    };
-    format!("{d}{}", if caps.kitty_keyboard { 1 } else { 0 })
-}
+/// capabilities the terminal must arrive at with this emulator and this environment (main() fixes TERM / COLORTERM /
+/// SURFNTERM): 256 colours, no kitty keyboard — written down here, not read from the terminal object
+const CAPS_TOKEN: &str = "e0";
 
 fn run_session(s: &Session) -> Outcome {
     let mut outcome = Outcome::default();
@@ -1250,10 +1318,13 @@ fn run_session(s: &Session) -> Outcome {
     // our own descriptor of the slave for the whole session: the pty must outlive the terminal
     let keep = unsafe { libc::dup(slave) };
     install_termios(keep, s.termios);
+    let (rows0, cols0) = (20 + (s.termios / 64 % 60) as usize, 70 + (s.termios / 4096 % 120) as usize);
+    set_winsize(master, rows0, cols0);
     let before = termios_words(keep);
+    let before_full = termios_full(keep);
     let typed: Arc<Mutex<Vec<u8>>> = Arc::new(Mutex::new(Vec::new()));
     let shared = Arc::new(Shared {
-        reply_delay_ms: AtomicU64::new(0), da_suffix: Mutex::new(Vec::new()), da_prefix: Mutex::new(Vec::new()), typed: typed.clone(),
+        rows: AtomicUsize::new(rows0), cols: AtomicUsize::new(cols0), reply_delay_ms: AtomicU64::new(0), da_suffix: Mutex::new(Vec::new()), da_prefix: Mutex::new(Vec::new()), typed: typed.clone(),
         received: Mutex::new(Vec::new()), count: AtomicUsize::new(0), at_da: Mutex::new(Vec::new()),
         paused: AtomicBool::new(false), answer_size: AtomicBool::new(s.size_esc), stop: AtomicBool::new(false), last_data_ms: AtomicU64::new(0), origin: Instant::now(),
     });
@@ -1287,21 +1358,22 @@ fn run_session(s: &Session) -> Outcome {
     };
     // settle: everything the constructor queued is sent, nothing is waiting in the event queue
     let mut setup_note: Option<String> = None;
+    let mut sent0 = 0usize;
     let t0 = Instant::now();
     loop {
         let r = term.poll(Some(Duration::from_millis(1)));
+        sent0 += accepted_sum(&verif_c17::take_trace());
         if t0.elapsed() > SLACK || r.is_err() {
             // the script is not run; the terminal is released and judged (restore, closing sequence); only when that
             // finds nothing is the session put aside as inconclusive
             setup_note = Some("setup-not-settled".to_string());
             break;
         }
-        if term.frames_pending() == 0 && matches!(r, Ok(None)) && shared.count.load(Ordering::SeqCst) >= term.stats().send {
+        if term.frames_pending() == 0 && matches!(r, Ok(None)) && shared.count.load(Ordering::SeqCst) >= sent0 {
             break;
         }
     }
     let _ = verif_c17::take_trace();
-    let caps = term.capabilities().clone();
     let size_esc = verif_c17::size_from_escape(&term);
     let saved = verif_c17::saved_termios(&term);
     let before_tok = before.as_ref().map(|w| words_token(w)).unwrap_or("none".into());
@@ -1311,7 +1383,7 @@ fn run_session(s: &Session) -> Outcome {
         keys_tx, typed, typist_pending, master_closed, in_poll: Arc::new(Mutex::new(InPoll { since: None })),
         stuck: Arc::new(AtomicBool::new(false)), session_thread: unsafe { libc::pthread_self() },
         keys_seen: vec![], wake_events: vec![], resize_events: vec![], term_raised: None, quit_seen: false,
-        hung_up: false, poll_failed: false, input_log: vec![], frames_dropped: false, big_output: false, keep_stalled: s.label.contains("stalled"),
+        hung_up: false, poll_failed: false, input_log: vec![], frames_dropped: false, sizes: vec![(rows0, cols0)], sent: sent0, injected_panic: false, big_output: false, keep_stalled: s.label.contains("stalled"),
         req: format!("c17 s o:{before_tok}:1111 z:{}", if size_esc { 1 } else { 0 }),
         exp: vec![format!("saved={}/5", words_token(&saved)), "q0/0e0".into()],
         out: outcome,
@@ -1399,6 +1471,10 @@ fn run_session(s: &Session) -> Outcome {
                             r.after_poll(&*term, &Ok(event), started, timeout);
                             calls += 1;
                             if calls >= k {
+                                if s.handler_panics {
+                                    r.injected_panic = true;
+                                    panic!("injected handler panic");
+                                }
                                 return if quit { Ok(TerminalAction::Quit(())) } else { Err(HErr::Injected) };
                             }
                             while let Some(step) = queue.pop_front() {
@@ -1438,7 +1514,10 @@ fn run_session(s: &Session) -> Outcome {
                 }
             }
         });
-        if body.is_err() {
+        if body.is_err() && r.injected_panic {
+            // the handler's own panic: the terminal object is intact and is released below like after any other exit
+            r.in_poll.lock().unwrap().since = None;
+        } else if body.is_err() {
             panicked = true;
             r.fail("the terminal panicked", "no panic".into(), format!("panic after steps {:?}", r.out.executed));
         }
@@ -1453,7 +1532,8 @@ fn run_session(s: &Session) -> Outcome {
     if !stalled {
         r.shared.paused.store(false, Ordering::SeqCst);
     }
-    let send_before = term.stats().send;
+    r.sent += accepted_sum(&verif_c17::take_trace());
+    let send_before = r.sent;
     let hung_up = r.hung_up;
     if r.term_raised.is_some() && !r.quit_seen && r.out.class.is_none() {
         r.out.class = Some("termination-signal-pending-at-drop".into());
@@ -1468,6 +1548,17 @@ fn run_session(s: &Session) -> Outcome {
         r.out.drop_ms = t_drop.elapsed().as_millis();
         if dropped.is_err() {
             r.fail("dropping the terminal panicked", "no panic".into(), "panic".into());
+        }
+    }
+    // a waker outlives the terminal: calling it afterwards (from this and from another thread) must simply return
+    {
+        let (w1, w2) = (r.waker.clone(), r.waker.clone());
+        let late = guarded(move || {
+            let _ = w1.wake();
+            let _ = std::thread::spawn(move || { let _ = w2.wake(); }).join();
+        });
+        if late.is_err() {
+            r.fail("wake() called after the terminal was released panicked", "returns (Ok or Err)".into(), "panic".into());
         }
     }
     let recs = verif_c17::take_trace();
@@ -1489,15 +1580,15 @@ fn run_session(s: &Session) -> Outcome {
             std::thread::sleep(Duration::from_micros(300));
         }
     }
-    let after = termios_words(keep);
+    let after = termios_full(keep);
     let received = r.shared.received.lock().unwrap().clone();
     if !panicked && !recs.is_empty() {
         // ---- oracle: restore
         if !hung_up {
             r.out.restore_checked = true;
-            if before != after {
+            if before_full != after {
                 r.fail("line settings after drop differ from those found when the tty was opened",
-                    before_tok.clone(), after.as_ref().map(|w| words_token(w)).unwrap_or("none".into()));
+                    before_full.as_ref().map(|w| words_token(w)).unwrap_or("none".into()), after.as_ref().map(|w| words_token(w)).unwrap_or("none".into()));
             }
         }
         // ---- oracle: epilogue delivered, and delivered before the restore
@@ -1570,7 +1661,7 @@ fn run_session(s: &Session) -> Outcome {
             }
             log.push("C".into());
             log.push(format!("T{}", words_token(&saved)));
-            r.req.push_str(&format!(" x:{}:-:{}:{}", caps_token(&caps), if polls.is_empty() { "-".to_string() } else { polls.join("/") }, if restore_ok { 1 } else { 0 }));
+            r.req.push_str(&format!(" x:{}:-:{}:{}", CAPS_TOKEN, if polls.is_empty() { "-".to_string() } else { polls.join("/") }, if restore_ok { 1 } else { 0 }));
             r.exp.push(format!("{}[{}]q{}e{}", if restore_ok { "ok" } else { "err" }, log.join(","), last_state.0, last_state.1));
         }
     }
@@ -1603,7 +1694,7 @@ fn keys(rng: &mut Rng, n: usize) -> Vec<u8> {
 }
 
 fn sess(label: &str, steps: Vec<Step>, termios: u64) -> Session {
-    Session { steps, drop_at: None, run_handler: None, render: false, termios, size_esc: termios % 5 == 0,
+    Session { steps, drop_at: None, run_handler: None, render: false, handler_panics: false, termios, size_esc: termios % 5 == 0,
         high_fd: match termios % 8 { 1 | 2 => Some(40 + (termios / 8 % 24) as i32), 3 => Some(64 + (termios / 8 % 200) as i32), _ => None },
         label: label.to_string() }
 }
@@ -1711,6 +1802,15 @@ fn fixed_sessions(rng: &mut Rng) -> Vec<Session> {
         let mut s = sess(&format!("render-{}-{k}", if term_signal { "sigterm" } else if quit { "quit" } else { "error" }), steps, rng.next());
         s.run_handler = Some((k, quit));
         s.render = true;
+        v.push(s);
+    }
+    // the handler panics: unwinding leaves `run` / `run_render`, the terminal is dropped afterwards
+    for (k, render) in [(2usize, false), (3, true)] {
+        let mut s = sess(&format!("handler-panic-{}-{k}", if render { "render" } else { "run" }), vec![Mode(1000, true), Mode(25, false), Poll(Timeout::Zero), WakeInline(1),
+            Poll(Timeout::Ms(5)), Write(3000, 2), Poll(Timeout::Zero), Poll(Timeout::Ms(5)), Poll(Timeout::Zero)], rng.next());
+        s.run_handler = Some((k, false));
+        s.render = render;
+        s.handler_panics = true;
         v.push(s);
     }
     for (k, quit) in [(1, false), (2, false), (4, false), (3, true), (99, false)] {
@@ -1936,6 +2036,12 @@ const RULE: &str = "sessions of the real UnixTerminal on a pty: white-box sessio
     then random sessions (4..17 steps, a third dropped mid-way or run through Terminal::run); distinct by script; non-trivial = at least one poll or a drop";
 
 fn main() {
+    // the capabilities the terminal detects depend on the environment: fix it (before any thread exists)
+    unsafe {
+        std::env::set_var("TERM", "xterm-256color");
+        std::env::remove_var("COLORTERM");
+        std::env::remove_var("SURFNTERM");
+    }
     let cfg = Cfg::from_env();
     let mut out = cfg.out();
     verif_harness::silence_panics();
